@@ -3,7 +3,7 @@ import inspect
 import sys
 from datetime import datetime, timedelta
 from logging import basicConfig, getLevelName, getLogger
-from typing import Dict, List, Optional
+from typing import Dict, List, Optional, Set
 
 import pytz
 from pycron import is_now
@@ -156,6 +156,8 @@ async def run_scheduler_loop(scheduler: TaskiqScheduler) -> None:
     """
     loop = asyncio.get_event_loop()
     running_schedules = set()
+    # Ids of schedules with specific time, that are waiting to be sent.
+    delayed_schedules: Set[str] = set()
     while True:
         # We use this method to correctly sleep for one minute.
         scheduled_tasks = await get_all_schedules(scheduler)
@@ -173,11 +175,23 @@ async def run_scheduler_loop(scheduler: TaskiqScheduler) -> None:
                     )
                     continue
                 if task_delay is not None:
+                    if task.time is not None and task.cron is None:
+                        # The previous iteration may have already
+                        # scheduled this task, and it is still waiting
+                        # for its time. We must not send it twice.
+                        if task.schedule_id in delayed_schedules:
+                            continue
+                        delayed_schedules.add(task.schedule_id)
                     send_task = loop.create_task(
                         delayed_send(scheduler, source, task, task_delay),
                     )
                     running_schedules.add(send_task)
                     send_task.add_done_callback(running_schedules.discard)
+                    send_task.add_done_callback(
+                        lambda _, schedule_id=task.schedule_id: (
+                            delayed_schedules.discard(schedule_id)
+                        ),
+                    )
         next_minute = datetime.now().replace(second=0, microsecond=0) + timedelta(
             minutes=1,
         )
